@@ -19,6 +19,7 @@ import LogosModel.StateType
 import LogosModel.Subst
 import LogosModel.Calls
 import LogosModel.IgnoreGroup
+import LogosModel.Assemble
 import LogosModel.Look.Utf8ClosedC
 import Std.Data.HashMap
 import LogosModel.Source
@@ -639,6 +640,30 @@ def textpipeAnswer (args : List String) : String :=
   s!"errs={b.errs} " ++ ";".intercalate (calls.map fun c =>
     s!"{if c.unicode then 1 else 0} {if c.icase then 1 else 0} {hexOf c.src}")
 
+/-- "ASSEMBLE": `s:<prio|->:<cb>` per skip, then `v:<name>:<u|t<n>|n>` opening a variant and `a:<t|r>:<prio|->:<cb>:<litlen>` per
+attribute of it; answer: one `kind prio cb name` per leaf (`kind` 0 skip / 1 unit / 2 value, `prio` a number or `?` for the
+complexity of the compiled regex) and the number of shape diagnostics -/
+def assembleAnswer (args : List String) : String :=
+  let optN (s : String) : Option Nat := if s == "-" then none else s.toNat?
+  let skips := args.filterMap fun a => match a.splitOn ":" with
+    | ["s", p, cb] => some ({ prio := optN p, cb := cb == "1" } : Assemble.Skip)
+    | _ => none
+  let vars := args.foldl (fun (acc : List Assemble.Variant) a => match a.splitOn ":" with
+    | ["v", name, sh] =>
+      let shape : Assemble.Shape := if sh == "u" then .unit else if sh == "n" then .named else .tuple ((sh.drop 1).toNat!)
+      acc ++ [{ name := name, shape := shape, attrs := [] }]
+    | ["a", k, p, cb, ll] =>
+      match acc.reverse with
+      | v :: rest => (({ v with attrs := v.attrs ++ [{ kind := if k == "t" then .token else .regex, prio := optN p, cb := cb == "1", litLen := ll.toNat! }] }) :: rest).reverse
+      | [] => acc
+    | _ => acc) []
+  let r := Assemble.assemble skips vars
+  let leafStr (l : Assemble.Leaf) : String :=
+    let (k, n) := match l.kind with | .skip => ("0", "_") | .unit n => ("1", n) | .value n => ("2", n)
+    let p := match l.prio with | .explicit n => toString n | .token n => toString n | .complexity => "?"
+    s!"{k} {p} {if l.cb then 1 else 0} {n}"
+  s!"errs={r.2} " ++ ";".intercalate (r.1.map leafStr)
+
 /-- "IGNOREGRP": tokens `i:<ident>`, `c` (comma), `o` (anything else) of an `ignore(...)` group -/
 def ignoreGrpAnswer (toks : List String) : String :=
   let ts := toks.map fun t => match t.splitOn ":" with
@@ -701,6 +726,9 @@ partial def run (h : IO.FS.Stream) (out : IO.FS.Stream) (cur : Case) (tbl : Std.
     run h out cur tbl
   | "Q" :: "TEXTPIPE" :: args =>
     out.putStrLn s!"{cur.name} TEXTPIPE {" ".intercalate args} : {textpipeAnswer args}"
+    run h out cur tbl
+  | "Q" :: "ASSEMBLE" :: args =>
+    out.putStrLn s!"{cur.name} ASSEMBLE {" ".intercalate args} : {assembleAnswer args}"
     run h out cur tbl
   | "Q" :: "IGNOREGRP" :: toks =>
     out.putStrLn s!"{cur.name} IGNOREGRP {" ".intercalate toks} : {ignoreGrpAnswer toks}"
